@@ -19,6 +19,11 @@ def Cls.leZero : Cls → Bool
   | .negInf | .neg | .zero => true
   | _ => false
 
+/-- `v >= 0.0` in numpy (comparisons with NaN are False) -/
+def Cls.geZero : Cls → Bool
+  | .zero | .pos | .posInf => true
+  | _ => false
+
 /-- `np.log` of a class (log of a negative number is NaN, log 0 = −inf) -/
 def Cls.log : Cls → Cls
   | .negInf | .neg | .nan => .nan
